@@ -465,8 +465,11 @@ pub fn run(tier: Tier) -> Report {
 fn noblock_schedules(rep: &Report, tier: Tier) {
     let cfgs: Vec<(usize, u64, u8)> = vec![(1, 1, 0), (2, 1, 0), (2, 1, 1), (2, 2, 0), (2, 1, 2)];
     let mut total = 0u64;
-    for (shards, dest, other) in cfgs {
-        let cfg = sched::ExploreCfg { bound: tier.pick(2, 3), ..Default::default() };
+    let cfgs: Vec<(usize, u64, u8, bool)> = cfgs.iter().map(|c| (c.0, c.1, c.2, false)).chain(cfgs.iter().map(|c| (c.0, c.1, c.2, true))).collect();
+    for (shards, dest, other, fine) in cfgs {
+        // macro pass: command granularity, preemption-bounded; fine pass: every synchronisation
+        // operation is a decision point, the bound counts every departure from the default schedule
+        let cfg = if fine { sched::ExploreCfg { mode: sched::Mode::Fine, count_all_deviations: true, bound: tier.pick(2, 4), ..Default::default() } } else { sched::ExploreCfg { bound: tier.pick(2, 3), ..Default::default() } };
         let outcomes: Mutex<BTreeMap<String, u64>> = Mutex::new(BTreeMap::new());
         let stats = sched::explore(
             &cfg,
@@ -516,7 +519,7 @@ fn noblock_schedules(rep: &Report, tier: Tier) {
                         rep.violation(Violation {
                             key: if *ok { "merge_noblock/ok-unexplained".into() } else { "merge_noblock/err-unexplained".into() },
                             what: format!("get() ok={ok}, mid observation {mid}, store after {tracks_after:?}"),
-                            replay: json!({"engine":"B","shards":shards,"dest":dest,"other_op":other,"schedule":x.schedule_json()}),
+                            replay: json!({"engine":"B","shards":shards,"dest":dest,"other_op":other,"granularity":if fine { "fine" } else { "macro" },"schedule":x.schedule_json()}),
                         });
                     }
                 }
@@ -524,13 +527,13 @@ fn noblock_schedules(rep: &Report, tier: Tier) {
                 other_outcome => rep.violation(Violation {
                     key: "merge_noblock/panic-or-deadlock".into(),
                     what: format!("{other_outcome:?}").chars().take(300).collect(),
-                    replay: json!({"engine":"B","shards":shards,"dest":dest,"other_op":other,"schedule":x.schedule_json()}),
+                    replay: json!({"engine":"B","shards":shards,"dest":dest,"other_op":other,"granularity":if fine { "fine" } else { "macro" },"schedule":x.schedule_json()}),
                 }),
             },
         );
         total += stats.executions;
         rep.add(stats.executions, stats.decision_points, stats.executions, 0);
-        rep.extra(&format!("noblock_shards{shards}_dest{dest}_other{other}"), json!({"schedules":stats.executions,"preemption_bound":stats.bound,"distinct_outcomes":outcomes.lock().unwrap().clone(),"truncated":stats.truncated}));
+        rep.extra(&format!("noblock_shards{shards}_dest{dest}_other{other}{}", if fine { "_fine" } else { "" }), json!({"schedules":stats.executions,"max_decision_points":stats.max_points,"bound_kind":if fine { "deviations, every synchronisation operation" } else { "preemptions, command granularity" },"bound":stats.bound,"distinct_outcomes":outcomes.lock().unwrap().clone(),"truncated":stats.truncated}));
     }
     rep.extra("noblock_schedules_total", json!(total));
 }
